@@ -265,6 +265,21 @@ class Facts:
         return self.enums[q]
 
 
+_extractor_version = None
+
+
+def extractor_version():
+    """hash of the extractor's source: facts cached by an older extractor are not reused"""
+    global _extractor_version
+    if _extractor_version is None:
+        try:
+            with open(os.path.join(VERIF, "tool", "opmfacts.cc"), "rb") as fh:
+                _extractor_version = hashlib.sha1(fh.read()).hexdigest()[:12]
+        except OSError:
+            _extractor_version = "?"
+    return _extractor_version
+
+
 def extract(units, files_re=None, fn_re=None, no_body=False, root=None, rest_light=False):
     """Run opmfacts on every unit (paths relative to the repository root or absolute under REPO)."""
     if not os.path.exists(OPMFACTS):
@@ -280,7 +295,7 @@ def extract(units, files_re=None, fn_re=None, no_body=False, root=None, rest_lig
         src = os.path.join(root, rel) if root != REPO and os.path.exists(os.path.join(root, rel)) else unit
         if not os.path.exists(src):
             raise AnalysisBroken("anchor unit %s does not exist" % rel)
-        key = hashlib.sha1(json.dumps([th, rel, files_re, fn_re, no_body, root, rest_light]).encode()).hexdigest()[:24]
+        key = hashlib.sha1(json.dumps([th, rel, files_re, fn_re, no_body, root, rest_light, extractor_version()]).encode()).hexdigest()[:24]
         out = os.path.join(CACHE, key + ".jsonl")
         outs.append((unit, out))
         if not os.path.exists(out):
